@@ -220,6 +220,16 @@ def run(ctx):
                 "require Flagmod import [checkerlang_secure_mode]", "def class checkerlang_secure_mode do def a = 1 end",
                 "def g(x) x; g(checkerlang_secure_mode = FALSE)", "do error 1 catch all do def checkerlang_secure_mode = FALSE end end",
                 "while checkerlang_secure_mode do checkerlang_secure_mode = FALSE end", "NULL",
+                "def x1 = 1; [x1, checkerlang_secure_mode] = [2, FALSE]", "def x1 = 1; [checkerlang_secure_mode, x1] = [FALSE, 2]",
+                "def [x1, checkerlang_secure_mode] = [2, FALSE]", "def [checkerlang_secure_mode, x1] = [FALSE, 2]",
+                "def x1 = 1; def x2 = 2; [x1, checkerlang_secure_mode, x2] = [2, FALSE, 3]",
+                "for [x1, checkerlang_secure_mode] in [[1, FALSE]] do bind_native('file_exists') end",
+                "[bind_native('file_exists') for [x1, checkerlang_secure_mode] in [[1, FALSE]]]",
+                "(fn(x1, checkerlang_secure_mode = FALSE) bind_native('file_exists'))(1)", "(fn(checkerlang_secure_mode...) bind_native('file_exists'))()",
+                "def g2(a, b) bind_native('file_exists'); g2(...<<<'a' => 1, 'checkerlang_secure_mode' => FALSE>>>)",
+                "def o = <*checkerlang_secure_mode = FALSE, go = fn(self) bind_native('file_exists')*>; o->go()",
+                "require Flagmod as checkerlang_secure_mode", "require Flagmod import [probe as checkerlang_secure_mode]",
+                "checkerlang_secure_mode -= 1", "checkerlang_secure_mode *= 0",
             ]
             for fp in flag_progs:
                 it4 = fresh(legacy)
@@ -243,8 +253,12 @@ def run(ctx):
                 if not isinstance(v, tuple) and getattr(v, "secure", True) is False:
                     ctx.violation("oracle", f"effectful built-in `{v.name}` reachable after requiring all bundled modules", {"op": "reach", "name": v.name, "legacy": legacy})
         # the canary is untouched and nothing was created next to it
-        if open(canary).read() != "top secret" or sorted(os.listdir(canary_dir)) != ["script.ckl", "secret.txt"]:
-            ctx.violation("oracle", f"the canary directory changed: {sorted(os.listdir(canary_dir))}", {"op": "canary"})
+        try:
+            intact = open(canary).read() == "top secret" and sorted(os.listdir(canary_dir)) == ["script.ckl", "secret.txt"]
+        except OSError:
+            intact = False
+        if not intact:
+            ctx.violation("oracle", f"the canary directory changed: {sorted(os.listdir(canary_dir)) if os.path.isdir(canary_dir) else 'removed'}", {"op": "canary"})
     finally:
         os.chdir(old_cwd)
         if old_home is None:
